@@ -146,6 +146,7 @@ static snippet_t SNIPS[] = {
 	/* 6 */ { "#c\n[a]\nk=" LONG40 "\n\n\n", 0, 4, { {I_OTHER, 0, 0}, {I_SECT, "a", 0}, {I_VAL, "k", LONG40}, {I_OTHER, 0, 0} }, 1, 0 },
 	/* 7 */ { BL62, 0, 0, { {0, 0, 0} }, 62, 0 },	/* 62 blank lines: [X]+k=..+62 = 64 = INI_LINES_PREALLOC */
 	/* 8 */ { "[A]\r\n\r\n; c\r\n[b]\n\n\n", 0, 4, { {I_SECT, "A", 0}, {I_OTHER, 0, 0}, {I_OTHER, 0, 0}, {I_SECT, "b", 0} }, 2, 0 },
+	/* 9 */ { "[Ab]\n", 0, 1, { {I_SECT, "Ab", 0} }, 0, 0 },	/* a section header as the LAST line of the store (enumeration offsets reach lines_count) */
 };
 
 /* ------------------------------------------------------------------ operations */
@@ -1360,6 +1361,7 @@ phases_init(int inplace) {
 	add_parse_op(&PH_DEEP, 1, 0);
 	add_parse_op(&PH_DEEP, 2, 0);
 	add_parse_op(&PH_DEEP, 5, 0);
+	add_parse_op(&PH_DEEP, 9, 0);
 	add_set_ops(&PH_DEEP, 2, 2, "012", 3);
 	add_num_op(&PH_DEEP, OP_SET_UINT, 0, 1, 100);
 
@@ -1368,6 +1370,7 @@ phases_init(int inplace) {
 	PH_MIXED.depth = 3;
 	for (s = 0; s < 8; s ++)
 		add_parse_op(&PH_MIXED, s, 0);
+	add_parse_op(&PH_MIXED, 9, 0);
 	add_set_ops(&PH_MIXED, 3, 3, "01234", 7);
 	add_num_op(&PH_MIXED, OP_SET_INT, 0, 0, -12);
 	add_num_op(&PH_MIXED, OP_SET_UINT, 1, 2, 100);
@@ -1379,6 +1382,7 @@ phases_init(int inplace) {
 	PH_MIXED4.depth = 4;
 	for (s = 0; s < 7; s ++)
 		add_parse_op(&PH_MIXED4, s, 0);
+	add_parse_op(&PH_MIXED4, 9, 0);
 	add_set_ops(&PH_MIXED4, 3, 3, "0123", 7);
 	add_num_op(&PH_MIXED4, OP_SET_INT, 0, 0, -12);
 	add_num_op(&PH_MIXED4, OP_SET_UINT, 1, 2, 100);
